@@ -2728,6 +2728,10 @@ func (e *executor) translateCall(index string, idx *Index, c *pql.Call) error {
 		// are only two possible values. Instead, they are handled
 		// directly.
 		if field.Type() == FieldTypeBool {
+			if _, ok := c.Args[rowKey]; !ok && c.Name == "Rows" {
+				// Rows(<bool field>) without "previous": nothing to translate.
+				return nil
+			}
 			boolVal, err := callArgBool(c, rowKey)
 			if err != nil {
 				return errors.Wrap(err, "getting bool key")
